@@ -30,7 +30,7 @@ class RandStub:
     def __call__(self, *shape, **kw):
         u = self.us[self.calls]
         self.calls += 1
-        return torch.tensor([u], dtype=torch.float64)
+        return torch.tensor([u], dtype=torch.float32)        # as the real torch.rand: float32
 
 
 def snapshot(buf):
